@@ -59,6 +59,7 @@ def work(item):
         assert L.starts[0] <= rg < L.ends[0] and L.starts[1] <= vg < L.ends[1]
         return L, rg - int(L.starts[0]), vg - int(L.starts[1])
     dz = Fr(1, 2)
+    z0 = Fr(7, 2) if twist_mode == 'radial' else Fr(0)          # the z grid of the twisted variant does not start at 0
     qbreaks = [TWO_PI * Fr(i, nq) for i in range(nq + 1)]
     T = oracle_knots(qbreaks, tdeg, True, tpath)
     bz = {Fr(0): Fr(1), Fr(3, 4): Fr(4, 5), Fr(5, 12): Fr(12, 13), Fr(8, 15): Fr(15, 17)}[twists[rg]]
@@ -71,9 +72,9 @@ def work(item):
     def body(ctx):
         tb = dist.make_basis(tdeg, True, qbreaks, uniform=(tpath == 'cu'))
         qpts = list(tb.greville)
-        zbreaks = [dz * k for k in range(nz + 1)]
+        zbreaks = [z0 + dz * k for k in range(nz + 1)]
         zb = dist.make_basis(3, True, zbreaks, uniform=False)
-        eta = [numenv.karr(rvals), np.array(qpts, dtype=object), numenv.karr([dz * k for k in range(nz)]), numenv.karr(vvals)]
+        eta = [numenv.karr(rvals), np.array(qpts, dtype=object), numenv.karr([z0 + dz * k for k in range(nz)]), numenv.karr(vvals)]
         consts = TwistConstants(rvals, twists)
         dt = z3.Real('dt')
         ctx.assume(z3.And(dt >= -z3.RealVal(dtmax), dt <= z3.RealVal(dtmax)))
@@ -82,6 +83,7 @@ def work(item):
             disp = z3.RealVal(-vel * bz) * dt
             ctx.assume(z3.And(disp >= z3.RealVal(window[0] * dz), disp <= z3.RealVal(window[1] * dz)))
         L, rl, vl = real_layout(eta)
+        st.update(dt=dt, qpts=qpts)
         fa = adv.FluxSurfaceAdvection(eta, [tb, zb], L, SReal(dt), consts)
         f = dist.symbolic_field('f', (nq, nz))
         f0 = f.copy()
@@ -102,10 +104,10 @@ def work(item):
         try:
             kn = m['spl'].make_knots(np.array([float(b) for b in qbreaks]), tdeg, True)
             tb = m['spl'].BSplines(kn, tdeg, True, tpath == 'cu')
-            zkn = m['spl'].make_knots(np.array([float(dz) * k for k in range(nz + 1)]), 3, True)
+            zkn = m['spl'].make_knots(np.array([float(z0) + float(dz) * k for k in range(nz + 1)]), 3, True)
             zb = m['spl'].BSplines(zkn, 3, True, False)
             qpts = np.array(tb.greville, dtype=float)
-            eta = [np.array([float(x) for x in rvals]), qpts, np.array([float(dz) * k for k in range(nz)]), np.array([float(x) for x in vvals])]
+            eta = [np.array([float(x) for x in rvals]), qpts, np.array([float(z0) + float(dz) * k for k in range(nz)]), np.array([float(x) for x in vvals])]
 
             class FC:
                 R0 = float(R0)
@@ -167,7 +169,7 @@ def work(item):
         if kind == 'abort':
             if val.inconclusive:
                 prob = None
-                if ctx.check() == 'sat':
+                if 'dt' in st and ctx.check() == 'sat':
                     prob, dtv = replay(ctx.model(), None, None)      # the float run may decide what the symbolic run could not finish
                 if prob:
                     res['obligations'] += 1
